@@ -32,6 +32,7 @@ THEOREMS = [
     NS + "C16_fast_path",
     NS + "C16_tokenize_render",
     NS + "C16_partial",
+    NS + "C16_eval_free",
     NS + "C16_int_ops",
     NS + "C16_int_eval",
 ]
@@ -772,9 +773,9 @@ def sympy_direct_value(t, *envs, simplify=False):
         if r in (sympy.zoo, sympy.nan, sympy.oo, -sympy.oo):
             return None
         return ("symbolic", str(r))
-    except INFRA_EXC:
+    except (CaseTimeout, MemoryError, SkipCase):
         raise
-    except Exception:  # noqa: BLE001
+    except Exception:  # noqa: BLE001  (including SymPy's own RecursionError)
         return "exc"
 
 
@@ -794,7 +795,8 @@ def vfail(P, sig, what, case, got, *cands, simplify=False):
     alone computes the same wrong value, to the repo otherwise"""
     t = upstream_blame(got, *cands, simplify=simplify)
     if t is not None:
-        P.fail("sympy-upstream:" + sig.split(":")[0], what + f" [SymPy alone computes the same wrong value; operators {ops_sig(t)}]", case)
+        P.count("sympy_upstream_channel=" + sig.split(":")[0])
+        P.fail("sympy-upstream:value", what + f" [SymPy alone computes the same wrong value; channel {sig.split(':')[0]}, operators {ops_sig(t)}]", case)
     else:
         P.fail(sig, what, case)
 
@@ -1484,7 +1486,7 @@ def _run_chunk(arg):
         cases.append(c)
     signal.setitimer(signal.ITIMER_REAL, 0)
     reqs = [r for c in cases for r in c.reqs]
-    outs = lean_batch(reqs) if reqs else []
+    outs = _lean(reqs) if reqs else []
     k = 0
     for c in cases:
         n = len(c.reqs)
@@ -1496,8 +1498,29 @@ def _run_chunk(arg):
             if "err" in x:
                 P.disagree("model driver error", getattr(c, "case_obj", None), x, None)
         if n and all("err" not in x for x in o):
-            c.finish(P, o)
+            try:
+                signal.setitimer(signal.ITIMER_REAL, 60)
+                c.finish(P, o)
+            except (RecursionError, MemoryError, CaseTimeout) as e:
+                P.count("skipped_in_compare=" + type(e).__name__)
+            finally:
+                signal.setitimer(signal.ITIMER_REAL, 0)
     return P
+
+
+def _lean(reqs):
+    """lean_batch, waiting out a concurrent `lake build` that is replacing the driver binary"""
+    import time
+
+    from harness.common import Infra
+
+    for attempt in range(40):
+        try:
+            return lean_batch(reqs)
+        except (Infra, OSError):
+            if attempt == 39:
+                raise
+            time.sleep(3)
 
 
 def _chunks(kind, items, n):
